@@ -102,9 +102,28 @@ async fn read_task(mut a: Async<'static, FdX>, total: usize, mode: u8, max_chunk
     let mut rng = Rng::new(seed ^ 0xdef);
     let mut got = 0usize;
     let mut buf = vec![0u8; max_chunk.max(2)];
+    if mode >= 3 {
+        // the adapter is first polled on behalf of somebody else (a lost select branch, a hand-over between
+        // tasks): one poll with a foreign waker, then the owning task awaits it with its own
+        use futures::FutureExt;
+        match mode {
+            3 => {
+                if let Some(Ok(k)) = a.read(&mut buf[..1]).now_or_never() {
+                    if k == 1 {
+                        out.borrow_mut().push(buf[0]);
+                        got += 1;
+                        sh.read.set(got);
+                    }
+                }
+            }
+            _ => {
+                let _ = a.readable().now_or_never();
+            }
+        }
+    }
     while got < total {
         let n = (rng.range(1, max_chunk as u64) as usize).min(total - got).max(1);
-        let r: std::io::Result<usize> = match mode % 3 {
+        let r: std::io::Result<usize> = match if mode >= 3 { (mode - 3) * 2 } else { mode } {
             0 => a.read(&mut buf[..n]).await,
             1 => {
                 let (x, y) = buf[..n.max(2)].split_at_mut(n.max(2) / 2);
@@ -451,7 +470,7 @@ fn gen_case(args: &Args, case: u64) -> Case {
         writer_is_thread: who == 1,
         reader_is_thread: who == 2,
         write_mode: rng.below(4) as u8,
-        read_mode: rng.below(3) as u8,
+        read_mode: rng.below(5) as u8,
         max_chunk,
         blocking_before: rng.chance(1, 2),
         driver: rng.below(3).min(1) as u8,
